@@ -4,6 +4,12 @@ import YarlProofs.C07
 /-!
 # C16 — Hosts are stored in one canonical form and hostile hosts are rejected   (audit layer)
 
+Continued in C16HeadlineMore.lean (theorems that need modules which import this file): the IDN (non-ASCII) case under the
+stated IDNA assumption (`C16_headline_idn_*`), the zone id (`C16_headline_zone_*`), RFC 5952 (`C16_headline_ipv6_is_rfc5952`,
+`_double_colon`, `_groups`), brackets in `str()` (`C16_headline_str_brackets_*`), `build(authority=…)`
+(`C16_headline_build_authority_host`, `C16_headline_validation_fails_for_build_authority`,
+`C16_headline_nfkc_rejects_build_authority`).  The GAPS block at the end of THIS file is the one that is kept up to date.
+
 Property statement (verbatim):
 
 > The encoded host is always lower-case ASCII (an IPv6 zone id is kept verbatim): registered names are
@@ -32,7 +38,9 @@ theorem C16_headline_lower_ascii (o : Oracles) (h : Str) (v : Bool) (r : Str)
     -- no zone id: the zone is copied verbatim, upper case included (that is the parenthesis of the clause)
     (h37 : 37 ∉ h)
     -- ASCII input, or validation on.  A NON-ASCII host through the constructor (`v = false`) is whatever
-    -- the IDNA oracle answers: nothing can be proved about it (GAPS 1)
+    -- the IDNA oracle answers: proved lower-case ASCII reg-name text UNDER the assumption that the answer is sane
+    -- (`C16_headline_idn_lower_ascii`, C16HeadlineMore.lean), false for a hostile package
+    -- (`C16_headline_lower_ascii_fails_for_hostile_idna`, ibid.; GAPS 1)
     (hav : isAscii h = true ∨ v = true) : encodeHost o h v = .ok r → isLowerAscii r :=
   C16_result_lower_ascii o h v r h37 hav
 
@@ -78,7 +86,8 @@ theorem C16_headline_bracketed_subcomponents (e : Env) (u : Url) (raw : Str) (hr
     -- Appendix E: C16_ascii_host ↦ C16_headline_lower_ascii + this theorem (`encodeHost r v = .ok r`
     --   became `encodeHost (unbracket r) v = .ok r`: a bracketed result is stored without brackets) -/
 theorem C16_headline_idempotent (o : Oracles) (h r : Str) (v : Bool)
-    (ha : isAscii h = true)      -- non-ASCII: needs the IDNA round trip of the oracle (GAPS 1)
+    (ha : isAscii h = true)      -- non-ASCII: `C16_headline_idn_idempotent` (C16HeadlineMore.lean), under the assumption
+                                 -- that the IDNA answer is sane (no round trip is needed for idempotence; GAPS 1)
     -- validation on, or no '[' in the host, or an IPv6 literal: `C16_headline_idempotent_fails_for`
     (hbr : v = true ∨ 91 ∉ h ∨ ∃ h8, parseIP (partition 37 h).1 = some (.v6 h8)) :
     encodeHost o h v = .ok r → encodeHost o (unbracket r) v = .ok r :=
@@ -102,7 +111,10 @@ theorem C16_headline_host_reencodes_ip (e : Env) (u : Url) (raw : Str)
   C16_host_reencodes_ip_ascii e u raw hasc
 
 /-- … registered names: `URL.host` is the IDNA decoding `h` of `raw`, and `h` re-encodes to `raw` PROVIDED the
-    oracle's answers round-trip (an assumption about the `idna` package, minimal form) -/
+    oracle's answers round-trip (an assumption about the `idna` package, minimal form).  `raw` is "not IP-looking" for
+    `URL.host` when its last character is no digit OR — since fix 60dbf1e — it contains "xn--" (120 110 45 45): a
+    digit-ending raw host with an A-label IS decoded now (before the fix it was returned undecoded).  The same under the
+    packaged assumption `IdnaRoundTripAt`: `C16_headline_idn_host_reencodes` (C16HeadlineMore.lean). -/
 theorem C16_headline_host_reencodes_regname (e : Env) (u : Url) (raw h : Str) :
     rawHost e u = .ok (some raw) → isAscii raw = true → 58 ∉ raw →
     ((∀ l, raw.getLast? = some l → isDigitC l = false) ∨ hasSub [120, 110, 45, 45] raw = true) →
@@ -148,7 +160,9 @@ theorem C16_headline_never_injects (o : Oracles) (h r : Str) (he : encodeHost o 
 
 /-- "any authority containing a non-ASCII character whose NFKC form contains '/', '?', '#', '@' or ':' is
     rejected" — at the level of the constructor (NEW here; `C16_nfkc_rejects` is the `_check_netloc` level).
-    `A` is the RFC authority of the cleaned input; `nn` the oracle's NFKC of `A` without "@:#?" -/
+    `A` is the RFC authority of the cleaned input; `nn` the oracle's NFKC of `A` without "@:#?".
+    Since fix c2c2803 `build(authority=…)` runs the same screen: `C16_headline_nfkc_rejects_build_authority`
+    (C16HeadlineMore.lean). -/
 theorem C16_headline_nfkc_rejects (e : Env) (s nn : Str) :
     let A := (Rfc.appendixB Gen.schemeChars (cleanUrl s)).authority
     isAscii A = false →
@@ -182,31 +196,71 @@ example : (Rfc.appendixB Gen.schemeChars (cleanUrl ("http://x".toStr ++ [0x2100]
     "x".toStr ++ [0x2100] ++ "y".toStr := by decide +kernel
 
 /-
-GAPS:
- 1. NON-ASCII hosts: `idna.encode/decode`, `unicodedata.normalize`, `str.isdigit`, `str.lower` on non-ASCII
-    text are ORACLES (inputs of the model).  So "the encoded host is always lower-case ASCII" for a non-ASCII
-    host given to the CONSTRUCTOR (validation off) is not provable in the model — it is a property of the
-    `idna` package; with validation on (build / with_host) the result is checked and proved ASCII,
-    lower-case, reg-name.  Likewise idempotence and "decoded host re-encodes" for IDN hosts are proved only
-    under explicit round-trip hypotheses on the oracle answers.
- 2. "always lower-case … (an IPv6 zone id is kept verbatim)": with a zone id (`'%' ∈ h`) no lower-case/ASCII
-    statement for validation OFF (the constructor accepts any zone text); with validation on the zone
-    passes the reg-name screen case-insensitively (`C16_zone_validated`), ASCII by C16_headline_validated_ascii.
- 3. "bracketed in str()": no C16 theorem about `str`.  What exists: the constructor stores the bracketed form
-    in the netloc (model, `encodeUrl`), `C17_str_omits_default_port` shows str() prints `bracket h` for
-    `Written` URLs, `C16_headline_bracketed_subcomponents` covers the two subcomponent accessors.  A direct
-    "rawHost contains ':' ⇒ str(u) contains '[' rawHost ']'" for constructor results is missing.
- 4. "compressed": `ipv6ToStr` is a hand model of `ipaddress.IPv6Address.compressed` (CPython 3.12), validated by
-    the differential harness; proved: lower-case hex/colon text, parse∘print = id, first-longest-run rule by
-    examples only.  No proof that the text is the SHORTEST/RFC 5952 form.  IPv4-mapped tails, scope ids
-    beyond '%zone' as in the model.
- 5. "build() and with_host() reject …": stated as "success ⇒ `_encode_host(…, True)` succeeded ⇒ result is an
-    IP literal or in the reg-name language".  For `build(authority=…)` the host is encoded with validation
-    OFF (by design in yarl) — not covered by the clause as proved; `encoded=True` skips everything.
- 6. NFKC clause: proved relative to the `nfkc` oracle answer; `cleanUrl`/Appendix-B authority is the text that
-    is checked.  The clause is about the constructor (both modes) only: `build(authority=…)`, `with_host`
-    do not call `_check_netloc` (with_host validates instead) — no theorem needed, but the property text
-    says "any authority".
+GAPS:   (theorems named `C16_headline_…` that are not in this file are in C16HeadlineMore.lean)
+ 1. PARTLY CLOSED by C16_idn_encoded_ascii_lower, C16_idn_ctor, C16_idn_build, C16_idn_withHost, C16_idn_encode_idempotent,
+    C16_idn_host_decoded, C16_idn_host_reencodes (C16Idn.lean), see C16_headline_idn_lower_ascii, _idn_constructor,
+    _idn_validated, _idn_idempotent, _idn_host_decoded, _idn_host_reencodes.  Proved for a NON-ASCII host that is no IP
+    literal, the CONSTRUCTOR (validation off) included: IF the answers of the `idna` package / the lower-cased answer of
+    the stdlib fallback for that host are non-empty and pass the library's own NOT_REG_NAME screen (`IdnaSaneAt`, written
+    out as two hypotheses in C16_headline_idn_lower_ascii) THEN the stored host is that answer, is lower-case ASCII
+    reg-name text and is a fixed point of `_encode_host`; with validation on (build / with_host) only non-emptiness of the
+    answer is assumed; and IF the answers round-trip (`IdnaRoundTripAt`) THEN the decoded host re-encodes to the raw host.
+    The assumptions are satisfiable with the answers of the real code (C16_idn_sane_satisfiable) and each is needed
+    (C16_headline_lower_ascii_fails_for_hostile_idna, C16_headline_idn_host_reencodes_fails_for_no_roundtrip,
+    C16_idn_needs_* in C16Idn.lean).
+    STILL OPEN: `idna.encode/decode`, `unicodedata.normalize`, `str.isdigit`, `str.lower` on non-ASCII text are ORACLES
+    (inputs of the model); that the real `idna` package / stdlib codec satisfy `IdnaSaneAt` / `IdnaRoundTripAt` is a
+    property of third-party code — NOT proved, trusted base (probed only: header of C16Idn.lean lists answers that are
+    not reg-name text, e.g. "ü%zz" ↦ "xn--%zz-goa", and a host whose answer no decoder accepts).  The URL-level statement
+    C16_headline_idn_constructor covers only inputs `scheme://h/path#fragment` with the IDN host alone in the authority
+    (no userinfo, no port); other shapes have the `_encode_host`-level statement only.
+ 2. CLOSED by C16_zone_kept_verbatim, C16_zone_kept_verbatim', C16_zone_kept_verbatim_ipv4, C16_zone_char_accepted,
+    C16_notRegName_iff, C16_zone_ipv4_not_literal (C16More.lean), see C16_headline_zone_kept_verbatim,
+    _zone_validated_chars, _zone_ipv4, C16_headline_notRegName_iff, C16_headline_ipv4_kept_fails_for_zone_without_digit.
+    Proved: for `addr%zone` with an IPv6 `addr`, `_encode_host` returns EXACTLY '[' compressed(addr) '%' zone ']' with
+    the zone byte for byte — with validation OFF for any zone text whatever (nothing is checked, by design: so no
+    lower-case/ASCII statement can hold there, the parenthesis of the clause), with validation ON iff the lower-cased
+    zone passes the reg-name screen (characters let through: '%', ASCII unreserved / sub-delims, letters of either
+    case).  An IPv4 text with a zone is kept verbatim when it contains ':' or ends in a digit; otherwise it is NOT an IP
+    literal for yarl and is lower-cased like a registered name (`URL("http://1.2.3.4%ETH/").raw_host == "1.2.3.4%eth"`).
+ 3. CLOSED by C16_str_brackets_ipv6, C16_str_brackets_build_host, C16_str_brackets_build_authority,
+    C16_str_brackets_with_host, C16_strShows_infix, C16_subcomponents_bracket_ipv6 (C16More.lean), see
+    C16_headline_str_brackets_constructor, _build_host, _build_authority, _with_host, C16_headline_subcomponents_bracket_ipv6
+    — WITH the corners where the clause is FALSE in the library: C16_headline_str_brackets_fails_for_second_bracket
+    (`str(URL("http://[x::1%z[]/")) == "http://x::1%z[/"` although raw_host is "::1%z"),
+    C16_headline_str_brackets_fails_for_build_authority_second_bracket (`build(authority="[[b:c]")` prints "http://[b:c"),
+    C16_headline_str_brackets_with_host_fails_for_rootless_path (no scheme + rootless path: `str()` drops the authority).
+    Proved: a raw host `h` containing ':' stands in `str()` as "[h]" right after "//" and the userinfo, followed by the
+    port unless it is the scheme default — for the constructor and build(authority=) when the host part of the authority
+    has at most one '[' and the IDNA encoder introduces none of `: @ [ ]` (that follows from `IdnaSane`:
+    C16_headline_str_brackets_idna_hypothesis; needed: C16_headline_str_brackets_fails_for_idna_colon, a hypothetical
+    encoder), for build(host=) unconditionally, for with_host when the receiver has a scheme or an empty-or-rooted path.
+    host_subcomponent / host_port_subcomponent bracket unconditionally (C16_headline_bracketed_subcomponents).
+ 4. PARTLY CLOSED by C16_ipv6_is_rfc5952, C16_ipv6_double_colon, C16_ipv6_groups, C16_ipv6_no_mixed_notation (C16More.lean
+    + Lemmas/V6More.lean), see C16_headline_ipv6_is_rfc5952, _ipv6_double_colon, _ipv6_groups,
+    C16_headline_ipv6_rfc5952_fails_for_ipv4_mapped.  Proved: `ipv6ToStr` equals the independent RFC 5952 §4 specification
+    `Rfc5952.format` (lower-case hex groups without leading zeros; the FIRST LONGEST run of ≥ 2 zero groups replaced by
+    "::", which occurs exactly once then and not at all otherwise; the run is maximal), and parse∘print = id
+    (C16_headline_ipv6).  RFC 5952 §5 (mixed notation for IPv4-mapped addresses) is NOT applied, as in CPython.
+    STILL OPEN: `ipv6ToStr` is a hand model of `ipaddress.IPv6Address.compressed` (CPython 3.12), validated by the
+    differential harness only; IPv4-mapped tails, scope ids beyond '%zone' as in the model.
+ 5. CLOSED (by stating exactly what holds) by C16_build_authority_host, C16_build_authority_accepts_more (C16More.lean), see
+    C16_headline_build_authority_host, C16_headline_validation_fails_for_build_authority.  "build() and with_host()
+    reject …" is stated as "success ⇒ `_encode_host(…, True)` succeeded ⇒ result is an IP literal or in the reg-name
+    language" (C16_headline_validation) for build(host=) and with_host.  For `build(authority=…)` the host is encoded
+    with validation OFF (by design in yarl): the clause is FALSE there (`authority="EX^ample{}.com"` is stored as
+    "ex^ample{}.com"); what holds instead — scheme lowered, NFKC screen for a non-ASCII authority, `split_netloc`, then
+    `_encode_host(host, False)` with its four cases — is C16_headline_build_authority_host.
+    STILL OPEN: `encoded=True` skips everything (no theorem).
+ 6. PARTLY CLOSED by C16_build_authority_nfkc_screen, C16_build_authority_now_rejected, C16_build_ascii_ignores_nfkc
+    (C16More.lean), see C16_headline_nfkc_rejects_build_authority, _nfkc_rejects_build_authority_instances,
+    C16_headline_build_ascii_ignores_nfkc.  NFKC clause: proved relative to the `nfkc` oracle answer; `cleanUrl`/Appendix-B
+    authority is the text that is checked.  The clause now holds for the constructor (both modes) AND, since fix c2c2803,
+    for `build(authority=…)`, which calls `_check_netloc` on a non-ASCII authority like the parser (before the fix
+    `build(scheme='http', authority='a＠evil.com')` gave a URL with host 'evil.com'; now ValueError).
+    STILL OPEN: `with_host` does not call `_check_netloc` (it validates instead: C16_headline_never_injects shows that no
+    '@' '/' '?' '#' and, outside IP literals, no ':' can come out) — no theorem phrased with NFKC, but the property text
+    says "any authority"; `build(encoded=True)` is not screened (no theorem); everything is relative to the oracle.
  7. Idempotence at URL level ("URL(str(u)).raw_host == u.raw_host") is C03; not restated here.
 -/
 end Yarl
